@@ -23,7 +23,7 @@ class C14(Prop):
 
     def cases(self, rng, tier):
         out = []
-        n = 500 if tier == 'quick' else 15000
+        n = 1000 if tier == 'quick' else 15000
         for _ in range(n):
             t = 0
             evs = []
